@@ -277,6 +277,10 @@ func defaultValueForTypeRec(schemas ast.Schemas, typeDef ast.Type, importModule 
 			}
 
 			return raw(referredPkg + "." + objectName + "." + enumName)
+		} else if found && referredObj.Type.Nullable && typeDef.Default == nil && referredObj.Type.Default == nil {
+			// a named optional (`MaybeName: string | null`, once the chain made it a nullable string):
+			// a type alias that can not be instantiated, whose values include None
+			return nil
 		} else if found && referredObj.Type.IsDisjunction() {
 			if _, found := following[ref.String()]; found {
 				return nil
